@@ -1039,26 +1039,32 @@ def c02_7(ctx: Ctx):
                     return fi, c, kw
         raise AnalysisError(f"{q}: sorted({over}, key=lambda ...) not found")
 
-    _, _, ref = sort_key("_modify.cache.ModifyCache.__init__", "byte_blocks")
-    ref_parts = [src(e) for e in ref.body.elts] if isinstance(ref.body, ast.Tuple) else [src(ref.body)]
-    arg = ref.args.args[0].arg
-    tie = [p for p in ref_parts if f"{arg}.size" in p]
-    ctx.check(len(tie) == 1, repo.func("_modify.cache.ModifyCache.__init__"), ref, f"reference order of the cache: position, then `{tie[0] if tie else '?'}`", "the cache's own ordering has no size tie-break any more", key="C02.7::reference")
+    def zero_first(lam: ast.Lambda):
+        """The first key component that mentions the size decides where a zero-sized block goes among blocks at one position:
+        `x.size != 0`, `bool(x.size)`, `x.size > 0` (False < True) and a bare ascending `x.size` all put it first."""
+        a = lam.args.args[0].arg
+        parts = [src(e) for e in lam.body.elts] if isinstance(lam.body, ast.Tuple) else [src(lam.body)]
+        for i, p in enumerate(parts):
+            if f"{a}.size" in p:
+                return parts, i, p in (f"{a}.size != 0", f"{a}.size", f"bool({a}.size)", f"{a}.size > 0", f"0 != {a}.size", f"0 < {a}.size")
+        return parts, None, False
+
+    fr, cr, ref = sort_key("_modify.cache.ModifyCache.__init__", "byte_blocks")
+    rparts, ri, rok = zero_first(ref)
+    ctx.check(ri is not None and ri >= 1 and rok, fr, cr, f"reference order of the cache: position, then zero-sized first (`{rparts[ri] if ri is not None else '?'}`)",
+              f"the cache orders blocks by `{', '.join(rparts)}`: a zero-sized block is no longer placed before a sized block at the same address", key="C02.7::reference")
     fi, c, lam = sort_key("intervalutils.split_byte_interval", "interval.blocks")
-    parts = [src(e) for e in lam.body.elts] if isinstance(lam.body, ast.Tuple) else [src(lam.body)]
+    parts, si, sok = zero_first(lam)
     a2 = lam.args.args[0].arg
-    want = tie[0].replace(f"{arg}.", f"{a2}.") if tie else f"{a2}.size != 0"
-    ctx.check(len(parts) >= 2 and parts[0] == f"{a2}.offset" and parts[1] == want, fi, c, f"blocks are grouped in the order ({a2}.offset, {want})",
-              f"blocks are sorted by `{', '.join(parts)}` only: when a zero-sized block and a sized block share an offset, set iteration order decides which comes first; if the sized block does, "
+    ctx.check(si == 1 and sok and parts[0] == f"{a2}.offset", fi, c, f"blocks are grouped in the order ({a2}.offset, zero-sized first)",
+              f"blocks are sorted by `{', '.join(parts)}`: when a zero-sized block and a sized block share an offset, the zero-sized one is not guaranteed to come first; if the sized block does, "
               "the zero-sized block is grouped into *its* interval, and a later edit at offset 0 of that block shifts the zero-sized block too (its label moves back over untouched bytes, "
               "the offset can become negative and the IR unserialisable)",
               key="split_byte_interval::zero-sized-first")
     fa, ca, la = sort_key("rewriting.RewritingContext.apply", "self._module.byte_blocks")
-    pa = [src(e) for e in la.body.elts] if isinstance(la.body, ast.Tuple) else [src(la.body)]
-    a3 = la.args.args[0].arg
-    want3 = tie[0].replace(f"{arg}.", f"{a3}.") if tie else f"{a3}.size != 0"
-    ctx.check(len(pa) >= 2 and pa[1] == want3, fa, ca, f"apply() visits blocks in the order (address, {want3})",
-              f"apply() sorts the blocks it visits by `{', '.join(pa)}` only, the neighbour cache by (address, size != 0): for a zero-sized block Z kept at the address of the following data block D, "
+    pa, ai, aok = zero_first(la)
+    ctx.check(ai == 1 and aok, fa, ca, "apply() visits blocks in the order (address, zero-sized first)",
+              f"apply() sorts the blocks it visits by `{', '.join(pa)}`, the neighbour cache by (address, zero-sized first): for a zero-sized block Z kept at the address of the following data block D, "
               "set order decides whether D is visited first - then D's deletion also removes Z and Z's own pending modification runs on a detached block (AssertionError in about half of the runs), "
               "while one-at-a-time application never fails",
               key="apply::zero-sized-first")
